@@ -154,8 +154,8 @@ theorem tx_atomic (env : Env) (db : Db) (prevCtx : Ctx) (tx : TxSpec)
     | ok => simp [hr, commit] at hne
     | err e =>
       simp only [hr] at hne ⊢
-      cases hr2 : (attempt env true db
-          (attempt env true db (if tx.reuseCtx = true then prevCtx else Ctx.empty) tx.body).st.ctx tx.body).res with
+      cases hr2 : (attempt env.later true db
+          (attempt env true db (if tx.reuseCtx = true then prevCtx else Ctx.empty) tx.body).st.ctx (laterBody tx.body)).res with
       | ok => simp [hr2, commit] at hne
       | err e2 => simp [rollback]
 
@@ -179,6 +179,18 @@ theorem caller_error_surfaces (env : Env) (h : FromCode env) (db : Db) (ctx : Ct
   have ha := (dbUpdate_agree env h.expected db ctx body hp).res.mp hok
   rw [(specTxWith_ok env true db ctx body).1] at ha
   have : (specBody env db ctx body).accepted = false := specSteps_caller_error env body tag hm _
+  simp [this] at ha
+
+/-- an error the caller returns only the first time its function is executed fails a Db.Update (which
+    executes it once); a Db.Batch runs the function again and may then commit — that run is covered by
+    `tx_error_surfaces` / `history_refines_spec` through the spec of the re-run (`Env.later`, `laterBody`) -/
+theorem first_run_error_surfaces (env : Env) (h : FromCode env) (db : Db) (ctx : Ctx) (body : List Step)
+    (hp : Propagating body) (tag : Nat) (hm : Step.fail1 tag ∈ body) :
+    (dbUpdate env db ctx body).res ≠ .ok := by
+  intro hok
+  have ha := (dbUpdate_agree env h.expected db ctx body hp).res.mp hok
+  rw [(specTxWith_ok env true db ctx body).1] at ha
+  have : (specBody env db ctx body).accepted = false := specSteps_first_run_error env body tag hm _
   simp [this] at ha
 
 /-- **a pre-commit action fails** (registered on the context before or during the body) -> error -/
@@ -225,6 +237,7 @@ theorem rejected_operation_surfaces (env : Env) (h : FromCode env) (db : Db) (ct
             · exact ih _
             · simp
         | fail tag => simp [specSteps]
+        | fail1 tag => simp [specSteps]
         | addCommit tag => simp only [List.cons_append, specSteps]; exact ih _
         | addPre tag fails => simp only [List.cons_append, specSteps]; exact ih _
         | nestedBegin => simp only [List.cons_append, specSteps]; exact ih _
@@ -253,6 +266,7 @@ theorem rejected_operation_surfaces (env : Env) (h : FromCode env) (db : Db) (ct
               · exact ih _
               · intro _; rfl
           | fail tag => intro _; rfl
+          | fail1 tag => intro _; rfl
           | addCommit tag => simp only [List.cons_append, specSteps]; exact ih _
           | addPre tag fails => simp only [List.cons_append, specSteps]; exact ih _
           | nestedBegin => simp only [List.cons_append, specSteps]; exact ih _
@@ -361,6 +375,22 @@ example :
     (runOp { regsP := [], regsC := [], txListeners := 0, t := tableHolderNotShared, ixP := [[(.beforeUpdate, "p1")]] }
       .none (.update .P "p1" ⟨"n9", [], none, []⟩ "") (beginTx [("p1", { f := ⟨"n1", [], none, []⟩, child := none })] Ctx.empty)).2
         = .err (.ixVeto .P 0) := by
+  decide +kernel
+
+/-- Witness for Db.Batch re-runs that succeed: the function creates an entity and then fails the first
+    time only; bbolt runs it again, the second run commits — the result is ok, the body ran twice, the
+    entity is there, and what the first run queued is gone with its transaction (one delivery, not two). -/
+example :
+    (runTx { regsP := [.listener .untyped [⟨.created, false⟩]], regsC := [], txListeners := 1, t := Generated.crudReturns }
+      [] Ctx.empty
+      { mode := .batch, reuseCtx := false, body := [.addCommit 1, .op (.create .P "p1" ⟨"n", [], none, []⟩ "") .none false, .fail1 7] }).res = .ok ∧
+    (runTx { regsP := [.listener .untyped [⟨.created, false⟩]], regsC := [], txListeners := 1, t := Generated.crudReturns }
+      [] Ctx.empty
+      { mode := .batch, reuseCtx := false, body := [.addCommit 1, .op (.create .P "p1" ⟨"n", [], none, []⟩ "") .none false, .fail1 7] }).runs = 2 ∧
+    (runTx { regsP := [.listener .untyped [⟨.created, false⟩]], regsC := [], txListeners := 1, t := Generated.crudReturns }
+      [] Ctx.empty
+      { mode := .batch, reuseCtx := false, body := [.addCommit 1, .op (.create .P "p1" ⟨"n", [], none, []⟩ "") .none false, .fail1 7] }).fired
+      = [.commitActions [1, 1], .listener .P 0 0 false .created (some (.parent "p1" ⟨"n", [], none, []⟩)), .txComplete 0] := by
   decide +kernel
 
 end StorageModel.Properties.C07
